@@ -691,6 +691,8 @@ def _oracle_step(s, step):
                 return "id %d was committed but the working tree still reports a change for it" % i
         elif raw_changed:
             if i not in postd:
+                if not closed and _committed(new.get(i)) == w:
+                    continue      # pulled in by a rename across the selection boundary (an added-then-missing id)
                 return "pending change of unselected id %d vanished" % i
             if postd[i][2:] != pred[i][2:]:
                 return "pending change of unselected id %d altered: %r -> %r" % (i, pred[i], postd[i])
@@ -1017,10 +1019,10 @@ def cases(rng, tier):
         rest = [c for c in sc if c not in keep]
         rng.shuffle(rest)
         yield from keep
-        yield from rest[:40]
+        yield from rest[:30]
     else:
         yield from sc
-    for _ in range(150 if tier == "quick" else 2500):
+    for _ in range(120 if tier == "quick" else 2500):
         yield _gen_hist(rng)
 
 
